@@ -236,6 +236,16 @@ def main(argv=None):
         for r in results:
             samples.extend(dict(s, config=r['label']) for s in r.get('samples', [])[:1])
 
+    second_engine = None
+    te = getattr(mod, 'thorough_extra', None)
+    if te is not None and tier == 'thorough' and not args.only:
+        try:
+            second_engine = te()
+            for r in second_engine:
+                if r['verdict'] == 'counterexample':
+                    errors.append(f"second engine (CrossHair) reports a counterexample for {r['condition']}: {r['output']}")
+        except Exception as e:  # noqa: BLE001
+            second_engine = [{'condition': 'crosshair', 'verdict': 'inconclusive', 'output': f"{type(e).__name__}: {e}"}]
     known = load_known(pid)
     open_known = {e['key']: e for e in known if e.get('status', 'open') == 'open'}
     violations = []       # new, reproduced
@@ -293,6 +303,7 @@ def main(argv=None):
         'second_solver_cvc5': {'queries_rechecked': st['cvc5_checked'], 'agree': st['cvc5_agree'], 'unknown': st['cvc5_unknown'],
                                'disagree': st['cvc5_disagree'], 'seconds': round(st['cvc5_s'], 2)},
         'vacuity_witnesses': st['vacuity_witnesses'],
+        'second_engine_crosshair': second_engine,
         'canary_claims': st['canaries'], 'canary_claims_refuted': st['canaries_refuted'],
         'evaluations': st['paths'],
         'distinct_nontrivial': st['completed_paths'],
